@@ -30,6 +30,7 @@ pub enum Mut {
     PercentageJustAboveCollateral,
     WrongTotalCollateral,
     DropNativeScriptOfMint,
+    DropOneOfSeveralNativeScripts,
     DropPlutusScript,
     DropDatum,
     DropRedeemer,
@@ -43,11 +44,11 @@ pub enum Mut {
     DropCostModel,
 }
 
-pub const ALL: [Mut; 32] = [
+pub const ALL: [Mut; 33] = [
     Mut::EmptyInputs, Mut::RemoveInputUtxo, Mut::RemoveCollateralUtxo, Mut::RemoveReferenceUtxo, Mut::DropScriptReference, Mut::SlotPastTtl, Mut::SlotBeforeValidityStart,
     Mut::RaiseMinAdaPerOutput, Mut::LowerMaxValueSize, Mut::EnvNetworkFlip, Mut::BodyNetworkIdWrong, Mut::OutputNetworkWrong,
     Mut::NoCollateralAllowed, Mut::CollateralToScriptAddress, Mut::CollateralWithAssets, Mut::CollateralTooSmall, Mut::CollateralJustBelowMinimum,
-    Mut::RaiseCollateralPercentage, Mut::PercentageJustAboveCollateral, Mut::WrongTotalCollateral, Mut::DropNativeScriptOfMint, Mut::DropPlutusScript, Mut::DropDatum,
+    Mut::RaiseCollateralPercentage, Mut::PercentageJustAboveCollateral, Mut::WrongTotalCollateral, Mut::DropNativeScriptOfMint, Mut::DropOneOfSeveralNativeScripts, Mut::DropPlutusScript, Mut::DropDatum,
     Mut::DropRedeemer, Mut::AlterAuxDataKeepHash, Mut::WrongAuxHash, Mut::DropAuxDataKeepHash, Mut::AuxDataWithoutHash, Mut::HashWithoutAuxData, Mut::WrongScriptDataHash,
     Mut::AlterCostModel, Mut::DropCostModel,
 ];
@@ -261,6 +262,22 @@ fn apply(m: Mut, spec: &Spec, w: &mut World) -> bool {
                 return false;
             }
             drop_wit_key(w, &[1])
+        }
+        Mut::DropOneOfSeveralNativeScripts => {
+            // a mint under two or more policies keeps all but one of its scripts
+            if !era.multiasset() {
+                return false;
+            }
+            let Some(v) = TxView::parse(&w.tx) else { return false };
+            let mut wn = v.wits().clone();
+            let Some(list) = wn.map_get_mut(1).and_then(|n| n.as_array_mut()) else { return false };
+            if list.len() < 2 {
+                return false;
+            }
+            list.remove(0);
+            let body = v.body().span(&w.tx).to_vec();
+            w.tx = view::assemble(&body, &cx::write(&wn), true, w.f.aux.as_deref());
+            true
         }
         Mut::DropPlutusScript => plutus && !w.f.script_by_reference && drop_wit_key(w, &[3, 6, 7]),
         Mut::DropDatum => plutus && drop_wit_key(w, &[4]),
@@ -490,6 +507,18 @@ fn fit(mut spec: Spec, m: Mut, spare: &forge::PlutusS, salt: u8) -> Spec {
                 }
             }
         }
+        Mut::DropOneOfSeveralNativeScripts => {
+            if spec.era < EraK::Mary {
+                spec.era = later(EraK::Mary, salt);
+            }
+            // two different policies, minted (burns need the asset among the inputs)
+            spec.mint.retain(|x| x.2 > 0);
+            for p in 0..2u8 {
+                if !spec.mint.iter().any(|x| x.0 == p) {
+                    spec.mint.push((p, salt % 6, 1 + salt as i64));
+                }
+            }
+        }
         Mut::DropNativeScriptOfMint => {
             if spec.era < EraK::Mary {
                 spec.era = later(EraK::Mary, salt);
@@ -504,10 +533,10 @@ fn fit(mut spec: Spec, m: Mut, spare: &forge::PlutusS, salt: u8) -> Spec {
 }
 
 pub fn run(s: &Session) {
-    s.set_rule("accepted TxForge transactions of every post-Byron era under 32 rule-specific mutators (empty inputs; spent / \
+    s.set_rule("accepted TxForge transactions of every post-Byron era under 33 rule-specific mutators (empty inputs; spent / \
         collateral UTxO entry removed; slot past ttl / before validity start; minimum ada raised; maximum value size lowered; \
         network id of the environment, of the body, of an output flipped; collateral count limit, kind, amount (far below and exactly one lovelace below the minimum), percentage (far above and \
-        exactly one point above what the collateral covers), annotation; reference input missing from the UTxO, script reference dropped; native script of a mint, Plutus script, datum, redeemer dropped; auxiliary data altered / dropped with the \
+        exactly one point above what the collateral covers), annotation; reference input missing from the UTxO, script reference dropped; native scripts of a mint (all, or one of several), Plutus script, datum, redeemer dropped; auxiliary data altered / dropped with the \
         hash kept, wrong hash, data without a hash in the body, hash without data; wrong script-data hash; cost model altered / removed). Body-level mutators are re-signed. \
         Singles exhaustively per generated transaction (every applicable mutator alone) and random pairs. Oracle: validation \
         fails. Non-trivial = a mutator applied to an accepted base; distinct = distinct (recipe, mutators)");
